@@ -12,13 +12,17 @@
    in particular two strand positions, or two positions of structures - are connected in the seeded graph, with a parity, exactly
    when their canonical nucleotides (kap: the flattening of strands and super-sequences down to
    offsets of the declared sequences, with orientation) are connected with the corresponding parity
-   by the document's equal statements and target base pairs alone; hence
-   C04_same_rep_iff_document_forces.  Its hypotheses same_graph / spec_okb / dgraph_ok are
+   by the document's equal statements and target base pairs alone.  Its hypotheses same_graph / spec_okb / dgraph_ok are
    booleans the extracted model evaluates for every generated case.
+   For the default strand-oriented layout the three booleans are themselves proved of every document
+   the loader accepts (theorems C04_loaded_...): load_spec establishes well-formedness (LoadProofs), seed builds
+   exactly the declarative graph (SeedProofs, phase by phase), the layout formula makes the node
+   encoding strictly increasing and every link join declared nodes (LayoutProofs); so
+   C04_loaded_graph_denotes has no hypothesis beyond `the document loads and seeds`.
    The denotation-level oracle of the correspondence check decides the same statement independently. *)
 From Coq Require Import List String Ascii Arith.
 From PC Require Import Base.Codes Comp.Syntax Comp.Compile Design.Propagate Design.PropagateProofs Design.Designer Design.DesignerProofs Design.TemplateProofs
-  Design.Contraction Design.DGraph Design.DenoteGraph Design.DenoteTie Design.DenoteSat.
+  Design.Contraction Design.DGraph Design.DenoteGraph Design.DenoteTie Design.DenoteSat Design.LoadProofs Design.SeedProofs Design.LayoutProofs Design.Loaded.
 Import ListNotations.
 
 Theorem C04_closure_exact_partial : forall g, graph_closed g = true ->
@@ -115,3 +119,29 @@ Theorem C04_denotation_nonvacuous : forall so, exists lay g, seed demo_spec so =
   exists e w s, get_constraints demo_spec so = DOk e w s.
 Proof. exact demo_hypotheses. Qed.
 Print Assumptions C04_denotation_nonvacuous.
+
+(* strand layout, no per-case hypothesis: every loaded and seeded document *)
+Theorem C04_loaded_graph_denotes : forall (ls : list pline) (p : pspec) (lay : layout) (g : cgraph),
+  load_spec ls pspec0 = OK p -> seed p false = OK (lay, g) ->
+  forall x q y, In x (nodes p false) -> In y (nodes p false) ->
+  (gconn g (enc p lay x) q (enc p lay y) <->
+   pconn dnode (Rc_links p false) (fst (kap p false x)) (xorb q (xorb (snd (kap p false x)) (snd (kap p false y)))) (fst (kap p false y))).
+Proof. exact loaded_graph_denotes. Qed.
+Print Assumptions C04_loaded_graph_denotes.
+
+Theorem C04_loaded_hypotheses : forall (ls : list pline) (p : pspec) (lay : layout) (g : cgraph),
+  load_spec ls pspec0 = OK p -> seed p false = OK (lay, g) ->
+  lay = build_layout p false /\ spec_wf p false /\ same_graph p lay false g = true /\ dgraph_ok p lay false = true /\
+  place_okb p lay false = true /\ graph_ok g = true.
+Proof. intros ls p lay g L S. exact (conj (loaded_layout p lay g S) (conj (loaded_wf ls p L) (conj (loaded_same p lay g S)
+  (conj (loaded_dgraph ls p lay g L S) (conj (loaded_place ls p lay g L S) (loaded_graph_ok ls p lay g L S)))))). Qed.
+Print Assumptions C04_loaded_hypotheses.
+
+(* the graph seed returns is the declarative graph, phase by phase *)
+Theorem C04_seed_is_declarative : forall (p : pspec) (lay : layout) (g : cgraph), seed p false = OK (lay, g) ->
+  lay = build_layout p false /\
+  g_st g = map (fun nc => (enc p (build_layout p false) (fst nc), snd nc)) (d_nodes p false) /\
+  g_eq g = enc_links p (build_layout p false) (d_eq p false) /\ g_wc g = enc_links p (build_layout p false) (d_wc p false) /\
+  g_keys g = map fst (g_st g).
+Proof. exact seed_graph. Qed.
+Print Assumptions C04_seed_is_declarative.
